@@ -5,6 +5,7 @@ package main
 import (
 	"fmt"
 	"go/ast"
+	"go/token"
 	"go/types"
 	"sort"
 	"strings"
@@ -124,6 +125,8 @@ func checkC06(ctx *Ctx, r *Report) {
 	}
 
 	c06Reach(ctx, r)
+	c05Visitor(ctx, r)
+	c06NullableCarried(ctx, r, chains)
 }
 
 // child positions per container kind (field names in internal/ast)
@@ -403,4 +406,227 @@ func c06HandRolled(ctx *Ctx, r *Report, p passInfo, info *types.Info) {
 		r.Check(recursed, "traverse/reach", cons, hfd.Pos(), "the handler recurses into the kind's children",
 			fmt.Sprintf("the %s handler of %s does not call the recursion on the %s's children: nested occurrences are not reached", strings.ToLower(kind), pname, strings.ToLower(kind)))
 	}
+}
+
+// c06NullableCarried: once NotRequiredFieldAsNullableType has run, a later pass
+// of the chain that replaces a type by a freshly built one must carry the
+// nullability of the type it replaces, otherwise "every non-required field is
+// nullable" stops holding for the replaced occurrences.
+func c06NullableCarried(ctx *Ctx, r *Report, chains map[string][]string) {
+	pkg := ctx.Pkg("internal/ast/compiler")
+	info := pkg.TypesInfo
+	typeT := ctx.LookupType("internal/ast", "Type")
+	nullableF := astField(ctx, "Type", "Nullable")
+	later := map[string]bool{}
+	for _, l := range []string{"golang", "java", "php", "python"} {
+		seen := false
+		for _, n := range chains[l] {
+			if seen {
+				later[n] = true
+			}
+			if n == "NotRequiredFieldAsNullableType" {
+				seen = true
+			}
+		}
+	}
+	eng := newEffectsEngine(ctx)
+	sites := 0
+	for _, p := range allPasses(ctx, eng) {
+		if !later[p.named.Obj().Name()] {
+			continue
+		}
+		for _, fd := range methodsOf(ctx, p.named) {
+			fobj, _ := info.Defs[fd.Name].(*types.Func)
+			sig := fobj.Type().(*types.Signature)
+			// a function replacing a type: has an ast.Type parameter and returns ast.Type first
+			if sig.Results().Len() == 0 || namedOf(sig.Results().At(0).Type()) != typeT {
+				continue
+			}
+			var param types.Object
+			for i := 0; i < sig.Params().Len(); i++ {
+				if namedOf(sig.Params().At(i).Type()) == typeT {
+					if _, isPtr := sig.Params().At(i).Type().(*types.Pointer); !isPtr {
+						param = sig.Params().At(i)
+					}
+				}
+			}
+			if param == nil {
+				continue
+			}
+			readsParamNullable := func(n ast.Node) bool {
+				found := false
+				ast.Inspect(n, func(m ast.Node) bool {
+					if sel, ok := m.(*ast.SelectorExpr); ok && fieldOf(info, sel) == nullableF && isIdentOf(info, sel.X, param) {
+						found = true
+					}
+					return !found
+				})
+				return found
+			}
+			parents := parentMap(fd)
+			defs := map[types.Object]ast.Expr{}
+			ast.Inspect(fd.Body, func(n ast.Node) bool {
+				if as, ok := n.(*ast.AssignStmt); ok && as.Tok == token.DEFINE && len(as.Lhs) == len(as.Rhs) {
+					for i, l := range as.Lhs {
+						if id, ok := l.(*ast.Ident); ok {
+							defs[info.Defs[id]] = as.Rhs[i]
+						}
+					}
+				}
+				return true
+			})
+			isFreshType := func(e ast.Expr) bool {
+				c, ok := ast.Unparen(e).(*ast.CallExpr)
+				if !ok {
+					return false
+				}
+				fn := callee(info, c)
+				if fn == nil || fn.Pkg() == nil {
+					return false
+				}
+				if fn.Pkg().Path() == astPkgPath && fn.Type().(*types.Signature).Recv() == nil && namedOf(fn.Type().(*types.Signature).Results().At(0).Type()) == typeT {
+					return true // ast.NewRef, ast.NewScalar, ast.Any, ast.String, ...
+				}
+				if isCopyCall(info, c) {
+					// a copy of something other than the parameter
+					if sel, ok := c.Fun.(*ast.SelectorExpr); ok {
+						if root := rootIdent(sel.X); root != nil && objOf(info, root) != param {
+							return namedOf(info.TypeOf(c)) == typeT
+						}
+					}
+				}
+				return false
+			}
+			n := 0
+			ast.Inspect(fd.Body, func(node ast.Node) bool {
+				if fl, ok := node.(*ast.FuncLit); ok && fl != nil {
+					return false
+				}
+				rs, ok := node.(*ast.ReturnStmt)
+				if !ok || len(rs.Results) == 0 {
+					return true
+				}
+				res := ast.Unparen(rs.Results[0])
+				var retObj types.Object
+				var ctor ast.Expr
+				if id, ok := res.(*ast.Ident); ok {
+					retObj = objOf(info, id)
+					if init, ok := defs[retObj]; ok && isFreshType(init) {
+						ctor = init
+					}
+				} else if isFreshType(res) {
+					ctor = res
+				}
+				if ctor == nil {
+					return true
+				}
+				n++
+				sites++
+				carried := ""
+				// (a) <ret>.Nullable = … derived from the parameter's nullability (or constant true)
+				if retObj != nil {
+					ast.Inspect(fd.Body, func(m ast.Node) bool {
+						as, ok := m.(*ast.AssignStmt)
+						if !ok {
+							return true
+						}
+						for i, l := range as.Lhs {
+							sel, ok := ast.Unparen(l).(*ast.SelectorExpr)
+							if !ok || fieldOf(info, sel) != nullableF || !isIdentOf(info, sel.X, retObj) || i >= len(as.Rhs) {
+								continue
+							}
+							// the assignment must belong to the same block nest as this return (sibling paths each need their own)
+							if !sameBranch(parents, as, rs) {
+								continue
+							}
+							if readsParamNullable(as.Rhs[i]) {
+								carried = "result.Nullable is assigned from the replaced type's Nullable"
+							}
+							conds := enclosingConds(parents, as)
+							if len(conds) == 0 {
+								if tv := info.Types[as.Rhs[i]]; tv.Value != nil && tv.Value.String() == "true" {
+									carried = "result is made nullable unconditionally"
+								}
+							}
+							for _, c := range conds {
+								if readsParamNullable(c.stmt.Cond) {
+									carried = "result.Nullable is set under a condition on the replaced type's Nullable"
+								}
+							}
+						}
+						return true
+					})
+				}
+				// (b) options slice carrying ast.Nullable() under a condition on the parameter
+				if cc, ok := ast.Unparen(ctor).(*ast.CallExpr); ok && carried == "" {
+					for _, a := range cc.Args {
+						id, ok := ast.Unparen(a).(*ast.Ident)
+						if !ok {
+							continue
+						}
+						opts := objOf(info, id)
+						ast.Inspect(fd.Body, func(m ast.Node) bool {
+							as, ok := m.(*ast.AssignStmt)
+							if !ok || len(as.Lhs) != 1 || !isIdentOf(info, as.Lhs[0], opts) {
+								return true
+							}
+							mentionsNullableOpt := false
+							ast.Inspect(as.Rhs[0], func(k ast.Node) bool {
+								if c, ok := k.(*ast.CallExpr); ok {
+									if fn := callee(info, c); fn != nil && fn.Name() == "Nullable" && fn.Pkg() != nil && fn.Pkg().Path() == astPkgPath {
+										mentionsNullableOpt = true
+									}
+								}
+								return true
+							})
+							if !mentionsNullableOpt {
+								return true
+							}
+							for _, c := range enclosingConds(parents, as) {
+								if readsParamNullable(c.stmt.Cond) {
+									carried = "ast.Nullable() is added to the constructor options under a condition on the replaced type's Nullable"
+								}
+							}
+							return true
+						})
+					}
+				}
+				cons := fmt.Sprintf("%s replacement #%d", ctx.FuncName(fobj), n)
+				r.Check(carried != "", "traverse/nullable-carried", cons, rs.Pos(), carried,
+					fmt.Sprintf("%s returns a freshly built type (%s) in place of the visited one without carrying its Nullable flag: a non-required field (made nullable earlier in the chain) stops being nullable when this rewrite applies", ctx.FuncName(fobj), exprString(ctor)))
+				return true
+			})
+		}
+	}
+	r.Count("type replacements after NotRequiredFieldAsNullableType", sites)
+	r.Floor("type replacements after NotRequiredFieldAsNullableType", 4)
+}
+
+// sameBranch: the assignment is on the straight-line path to the return — every
+// block enclosing the assignment (up to the function body) also encloses the return, or the
+// assignment sits in a conditional directly preceding it in the same block.
+func sameBranch(parents map[ast.Node]ast.Node, as ast.Node, rs ast.Node) bool {
+	// innermost block of the return
+	retBlocks := map[ast.Node]bool{}
+	for p := parents[rs]; p != nil; p = parents[p] {
+		if _, ok := p.(*ast.BlockStmt); ok {
+			retBlocks[p] = true
+		}
+	}
+	// walk up from the assignment: skip the if-statement(s) that merely guard it; the first
+	// block that is not an if-body must enclose the return
+	for p := parents[as]; p != nil; p = parents[p] {
+		blk, ok := p.(*ast.BlockStmt)
+		if !ok {
+			continue
+		}
+		if _, isIfBody := parents[blk].(*ast.IfStmt); isIfBody {
+			if retBlocks[blk] {
+				return true
+			}
+			continue
+		}
+		return retBlocks[blk]
+	}
+	return false
 }
